@@ -625,7 +625,7 @@ class Interp:
     """
 
     def __init__(self, facts, mode, inline=None, max_steps=400000, max_paths=64, conj_as=None,
-                 frob_q=None, extra_transfer=None):
+                 frob_q=None, extra_transfer=None, stop_on_unknown_switch=False):
         self.facts = facts
         self.mode = mode
         self.inline = inline or (lambda p: False)
@@ -636,6 +636,7 @@ class Interp:
         self.conj_as = conj_as      # integer k meaning conjugate(x) = x^k
         self.frob_q = frob_q        # integer q meaning frobenius_map(c)(x) = x^(q^c)
         self.extra_transfer = extra_transfer
+        self.stop_on_unknown_switch = stop_on_unknown_switch
         self.opaque_sites = []
         self.call_sites = 0
 
@@ -729,6 +730,9 @@ class Interp:
                     label = o.label
                 elif isinstance(dv, tuple) and dv[0] == 'bool':
                     label = dv[1]
+                if decided is None and self.stop_on_unknown_switch and not (isinstance(dv, tuple) and dv and dv[0] in ('bool', 'discr')):
+                    results.append((pth, ('stopped', fr, bb), {}))
+                    return
                 if decided is None and isinstance(dv, BitVal):
                     # if-conversion on a symbolic scalar bit: run both arms to the join point and merge
                     join = _ipdom(body, bb)
